@@ -68,6 +68,31 @@ func main() {
 			os.Exit(2)
 		}
 		os.Exit(runner.Check(spec, o))
+	case "selftest":
+		if len(os.Args) < 3 {
+			usage()
+		}
+		ids := os.Args[2:]
+		if ids[0] == "all" {
+			ids = specs.IDs()
+		}
+		runs := int64(40)
+		if b := os.Getenv("VERIF_SELFTEST_RUNS"); b != "" {
+			runs, _ = strconv.ParseInt(b, 10, 64)
+		}
+		rc := 0
+		o.Tier = "quick"
+		for _, id := range ids {
+			spec := specs.Get(id)
+			if spec == nil {
+				fmt.Fprintf(os.Stderr, "unknown property %s\n", id)
+				os.Exit(2)
+			}
+			if c := runner.SelfTestOnly(spec, o, runs); c != 0 {
+				rc = c
+			}
+		}
+		os.Exit(rc)
 	case "replay":
 		if len(os.Args) < 3 {
 			usage()
@@ -97,6 +122,6 @@ func main() {
 }
 
 func usage() {
-	fmt.Fprintln(os.Stderr, "usage: verif check <ID> [--tier quick|thorough] | verif replay <file>")
+	fmt.Fprintln(os.Stderr, "usage: verif check <ID> [--tier quick|thorough] | verif replay <file> | verif selftest <ID...|all>")
 	os.Exit(2)
 }
